@@ -340,7 +340,10 @@ def _temp_candidates(func, names):
                     st += 1
                 else:
                     ld += 1
-        if st == 1 and ld == 1:
+        plain = any(isinstance(x, ast.Assign) and len(x.targets) == 1
+                    and isinstance(x.targets[0], ast.Name)
+                    and x.targets[0].id == nm for x in ast.walk(func))
+        if st == 1 and ld == 1 and plain:
             out.add(nm)
     return out
 
